@@ -412,6 +412,14 @@ class Cache(Filter[Iterable[Any], Iterable[Any]]):
             yield from current
         self._iter = None
 
+    def __getstate__(self):
+        #a partly consumed iterator (left behind by a reader that stopped early) can't
+        #be pickled so the copy starts over unless the cache has been completely filled
+        state = dict(self.__dict__)
+        if state['_iter'] is not None:
+            state['_iter'],state['_cache'] = None,None
+        return state
+
 class Insert(Filter[Iterable[Any], Iterable[Any]]):
     def __init__(self, insert_items: Sequence[Any]) -> None:
         self._insert_items = insert_items
